@@ -411,13 +411,40 @@ class Engine:
             self._value_atoms(e[2], acc)
             self._value_atoms(e[3], acc)
             return
+        nested = [x for x in ir.walk(e) if x[0] in ('ifexp', 'phi')]
+        if nested and len(nested) <= 4:
+            # generation-time choices inside the expression: their conditions are atoms, and so are the bits of
+            # every variant the choices can produce
+            for x in nested:
+                f_atoms(self._b(x[1], True), acc)
+            for picks in itertools.product((2, 3), repeat=len(nested)):
+                table = dict(zip(nested, picks))
+                variant = self.norm(ir.subst(e, lambda x: x[table[x]] if x in table else None))
+                if not any(y[0] in ('ifexp', 'phi') for y in ir.walk(variant)):
+                    self._value_atoms(variant, acc)
+            return
         if self.w.bit(e):
             f_atoms(self._b(e), acc)
 
     def eval_value(self, e, val):
         return self._ev(self.norm(e), val)
 
+    def _resolve(self, e, val):
+        """Pick the live branch of every generation-time choice (phi / conditional expression) nested in e under val."""
+        def f(x):
+            if x[0] in ('ifexp', 'phi'):
+                try:
+                    return x[2] if f_eval(self._b(x[1], True), val) else x[3]
+                except KeyError:
+                    return None
+            return None
+        if not any(x[0] in ('ifexp', 'phi') for x in ir.walk(e)):
+            return e
+        return self.norm(ir.subst(e, f))
+
     def _ev(self, e, val):
+        if e[0] not in ('ifexp', 'phi'):
+            e = self._resolve(e, val)
         if e[0] == 'call' and e[1] == ('name', 'Mux') and len(e[2]) == 3:
             return self._ev(e[2][1] if f_eval(self._b(e[2][0], True), val) else e[2][2], val)
         if e[0] in ('ifexp', 'phi'):
